@@ -47,22 +47,31 @@ RULE = ("cases = (a) module lists (the names ssh.connect packages plus extra and
         "distinct = distinct canonical model input")
 MANIFEST = dict(
     level_text=("Machine-checked Lean 4 theorems over a statement-by-statement model of get_module_source, empackage, "
-                "ssh.connect's packaging, the bootstrap one-liner and assembler.py: for every module list, every lawful "
-                "codec (zlib enters only through the law that sync-flushed chunks of one compressor decompress chunk by "
-                "chunk with one decompressor) and every segmentation of the upload into raw reads, the remote assembles "
-                "exactly the client's (name, source bytes) list in order and consumes exactly the upload (C18_framing, "
-                "C18_connect_assembles); the packaged bytes are the file's bytes (C18_source_bytes); rendering options "
-                "with %r, encoding as UTF-8, decoding and evaluating them remotely returns the same bool/int/None/str values "
-                "(C18_options, C18_options_wire), and every parameter of the real server.main receives the option of the same "
-                "name from assembler.py's call (C18_server_main_receives); the "
-                "client writes only content and content2 before the init string is accepted (C18_nothing_before_sync). "
-                "The model is tied to the code on every run by differential runs of the real functions and the real "
-                "assembler source, plus an oracle on the real code (thorough: through a real child interpreter)."),
+                "ssh.connect's packaging, the bootstrap one-liner, assembler.py, the %r rendering / remote evaluation of the "
+                "options module, the call that enters server.main, and the client's start-up writes. C18_session states the "
+                "whole session start for all inputs: for every client file system (module sources of arbitrary bytes, any "
+                "encoding, line ends, BOM, size), every lawful codec (zlib enters only through the law that the sync-flushed "
+                "chunks of one compressor decompress chunk by chunk with one decompressor), every non-empty option record over "
+                "the regenerated option names (bool, int, None, str, [] - every falsy value included), every cut of the upload "
+                "into raw reads and every cut of the server's output into reads: the remote executes exactly the assembler "
+                "source the client read, creates exactly the packaged names in order, compiles every module from exactly the "
+                "client's bytes, resolves its imports from the upload, consumes nothing beyond the upload, evaluates the "
+                "options module to the client's record, enters server.main with - for each parameter of the regenerated "
+                "signature - the client's value of the option of that name, and the client writes nothing but the upload "
+                "before it accepts the init string. Its parts: C18_framing / C18_connect_assembles (section parser: each "
+                "length-prefixed section consumed exactly, stop at the terminator, independent of read sizes), "
+                "C18_source_bytes, C18_options / C18_options_wire (repr, UTF-8, literal evaluation), C18_option_binding and "
+                "C18_falsy_values_survive (False, 0, None, '', [] reach server.main), C18_server_main_receives, "
+                "C18_nothing_before_sync. The model is tied to the code on every run by differential runs of the real "
+                "functions and the real assembler source, plus an oracle on the real code (incl. a real child interpreter and "
+                "the win32 pipe transport with partial writes)."),
     level_note=("Trusted: Lean kernel; axioms propext/Classical.choice/Quot.sound only; the correspondence harness; zlib "
                 "(abstract law, exercised concretely by the harness); Python's compile/exec and str.isprintable (the option "
-                "theorems hold for every set of non-printable code points); the remote shell command line and its quoting "
-                "are outside. C18_source_bytes holds for the binary-mode read (fix commit 4f669b3); the "
-                "text-mode read translated CR and depended on the locale (C18_textmode_read_false, C18_source_bytes_partial)."),
+                "theorems hold for every set of non-printable code points); that optdata encodes is a hypothesis (it fails "
+                "only for unescaped lone surrogates, which repr escapes); list values other than [] are outside the value "
+                "model; the remote shell command line and its quoting, and the win32 SocketRWShim pump (checked by oracle "
+                "only, not modelled) are outside the theorems. The text-mode source read of the original code translated CR "
+                "and depended on the locale (C18_textmode_read_false, C18_source_bytes_partial; fixed in /repo)."),
     technique="Lean 4 proof (induction over the module list, refinement to the flat stream) + differential correspondence with the real packaging and assembler code",
 )
 DRIVER_TARGETS = ['SshuttleModel.Code.Bootstrap']
@@ -418,6 +427,8 @@ def val_tok(v):
         return 'i%d' % v
     if isinstance(v, str):
         return 's' + '.'.join(str(ord(c)) for c in v)
+    if isinstance(v, list) and not v:
+        return 'L'
     return '?' + repr(v).replace(' ', '')
 
 
@@ -1454,6 +1465,15 @@ def session_case(ctx, case, scratch, log, seen):
     if r is not None and not r['end'].startswith(('crashed', 'asmBroken')):
         log.add(boot_line(obs['nasm'], [], r, obs['stream']), boot_out(r))
         log.nontrivial = True
+    if r is not None and r['end'] == 'done':
+        # the same session through the model: the uploaded options module evaluated, and main entered
+        for n, content in r['compiled']:
+            if n == 'sshuttle.cmdline_options':
+                vals = eval_module(content)
+                log.add('evalopts %s' % hexb(content), 'none' if vals is None else 'ok ' + opts_tok(vals))
+        kind, ent = entered_with(r['main_args'])
+        log.add('enter o=%s' % opts_tok(case['options']),
+                ','.join('%s:%s' % (p_, val_tok(v)) for p_, v in ent) if kind == 'ok' else kind)
     for key, exp, ob in session_problems(case, obs, r):
         if key in seen:
             continue
